@@ -9,6 +9,7 @@ import (
 	"time"
 
 	"github.com/goghcrow/yae"
+	"github.com/goghcrow/yae/types"
 	"github.com/goghcrow/yae/val"
 	"pgregory.net/rapid"
 
@@ -161,7 +162,9 @@ func checkAPI(c *APICase) *Outcome {
 		if callable == nil {
 			return bad("Compile returned neither a Callable nor an error (%s)", desc)
 		}
-		others := []interface{}{env, map[string]interface{}{"zz": 1}, nil, 42, struct{ X chan int }{}}
+		others := []interface{}{env, map[string]interface{}{"zz": 1}, nil, 42, struct{ X chan int }{},
+			// raw environments handed over directly: a chain of scopes, a typed nil, an empty one
+			val.NewEnv().Derive(), (*val.Env)(nil), val.NewEnv(), (*types.Env)(nil), types.NewEnv()}
 		if c.Fixed == "" {
 			// the hostile fixed values as run-time environment of a Callable compiled against something else
 			for _, n := range []string{"recursive-type-nil-link", "cyclic-map", "nested-101"} {
@@ -744,7 +747,7 @@ var evalScaleCases = []*EvalScaleCase{
 }
 
 func TestC12(t *testing.T) {
-	R.Rule = "source strings up to 256 bytes (quick) / 4 KiB (thorough): random bytes, random runes, token soup from the lexicon, grammar-aware edits (insert / delete / duplicate / swap) of valid programs taken from a seed list and from the program generator, bracket nests to depth 12, valid programs; environments: none, Go host values built by reflection (structs, maps, slices, pointers, interface parts, nil parts, unsupported kinds), or one of the fixed hostile host values (cyclic maps / slices / struct rings, self-referential pointers, recursive Go types with nil links, nesting beyond conv's limit, typed nils, unsupported kinds), also as run-time environment of a Callable compiled against something else; accepted generated programs over a host struct of interface{} fields or untagged pointer fields, the Callable then invoked with other values of the very same Go type (zero value, fields holding one another's values, strings / lists / numbers / maps); accepted sources are also passed to Debug and Eval with blanks / line breaks before and after them; every call of Eval, Compile (two back ends), the Callable (same environment, a mismatching map, nil, a number, an unsupported struct, values of the very same Go struct type that have another yae type: the zero value, interface{} fields holding a string / list / number / map) and Debug must return without panicking, with a value or an error, within 5 s (a slower call is repeated three times and reported only if slow every time; a call that does not return within 180 s aborts the run as a violation); scaling class: compile time against repetition count 2..60 for 45 nest, chain and prefix shapes must not grow by more than 2.5x per two levels over four consecutive steps from depth 12 on (or 1.7x over five steps from depth 30 on); eval-scaling class: 69 closed accepted shapes (nested / chained conditionals, short-circuit operators, user lazy functions, defaults, strict and host calls, literals, selectors, nests in the index / key operand of selectors, method notation) compiled and evaluated on each of the four back ends at repetition counts 2..60, compile time (whole pipeline) and evaluation time under the same growth rule; capacity class: sources of 60-100 KB at the VM's encoding limits (conditionals whose code crosses the 16-bit jump range; thorough: further wide / deep shapes) compiled and invoked twice through the public API on both facade back ends; non-trivial = input accepted, or rejected with more than one token"
+	R.Rule = "source strings up to 256 bytes (quick) / 4 KiB (thorough): random bytes, random runes, token soup from the lexicon, grammar-aware edits (insert / delete / duplicate / swap) of valid programs taken from a seed list and from the program generator, bracket nests to depth 12, valid programs; environments: none, Go host values built by reflection (structs, maps, slices, pointers, interface parts, nil parts, unsupported kinds), or one of the fixed hostile host values (cyclic maps / slices / struct rings, self-referential pointers, recursive Go types with nil links, nesting beyond conv's limit, typed nils, unsupported kinds), also as run-time environment of a Callable compiled against something else; accepted generated programs over a host struct of interface{} fields or untagged pointer fields, the Callable then invoked with other values of the very same Go type (zero value, fields holding one another's values, strings / lists / numbers / maps); accepted sources are also passed to Debug and Eval with blanks / line breaks before and after them; every call of Eval, Compile (two back ends), the Callable (same environment, a mismatching map, nil, a number, an unsupported struct, raw *val.Env values - empty, a chain of scopes, a typed nil - and *types.Env values, values of the very same Go struct type that have another yae type: the zero value, interface{} fields holding a string / list / number / map) and Debug must return without panicking, with a value or an error, within 5 s (a slower call is repeated three times and reported only if slow every time; a call that does not return within 180 s aborts the run as a violation); scaling class: compile time against repetition count 2..60 for 45 nest, chain and prefix shapes must not grow by more than 2.5x per two levels over four consecutive steps from depth 12 on (or 1.7x over five steps from depth 30 on); eval-scaling class: 69 closed accepted shapes (nested / chained conditionals, short-circuit operators, user lazy functions, defaults, strict and host calls, literals, selectors, nests in the index / key operand of selectors, method notation) compiled and evaluated on each of the four back ends at repetition counts 2..60, compile time (whole pipeline) and evaluation time under the same growth rule; capacity class: sources of 60-100 KB at the VM's encoding limits (conditionals whose code crosses the 16-bit jump range; thorough: further wide / deep shapes) compiled and invoked twice through the public API on both facade back ends; non-trivial = input accepted, or rejected with more than one token"
 	R.Assume = []string{"termination is only observed under the stated budgets; Go stack exhaustion by inputs beyond 4 KiB is not probed"}
 	reportKnown(t, "C12")
 	runRegress(t, "C12")
